@@ -250,12 +250,19 @@ def part_b(ctx, nruns):
         os.makedirs(os.path.join(sb, "work"))
         os.makedirs(os.path.join(sb, "real_parent"))
         os.symlink(os.path.join(sb, "real_parent"), os.path.join(sb, "link_parent"))
-        spelling = R.choice(["relative", "absolute", "dotted", "trailing", "symlink"])
+        # a link to a directory that lives elsewhere, followed by "..": the directory the operating system resolves, not the one a
+        # lexical clean-up of the spelling names (<sb>/work/hop -> <sb>/real_parent/deep, so hop/.. is <sb>/real_parent)
+        os.makedirs(os.path.join(sb, "real_parent", "deep"))
+        os.symlink(os.path.join(sb, "real_parent", "deep"), os.path.join(sb, "work", "hop"))
+        spellings = ["relative", "absolute", "dotted", "trailing", "symlink", "symlink_dotdot", "symlink_dotdot_abs"]
+        spelling = spellings[(i + ctx.seed) % len(spellings)]
+        R.random()
         outdir = {"relative": "outq", "absolute": os.path.join(sb, "work", "outq"), "dotted": "./zz/../outq", "trailing": "outq/",
-                  "symlink": os.path.join(sb, "link_parent", "outq")}[spelling]
+                  "symlink": os.path.join(sb, "link_parent", "outq"), "symlink_dotdot": "hop/../outq",
+                  "symlink_dotdot_abs": os.path.join(sb, "work", "hop", "..", "outq") + "/"}[spelling]
         if spelling == "dotted":
             os.makedirs(os.path.join(sb, "work", "zz"))
-        real_out = os.path.join(sb, "real_parent", "outq") if spelling == "symlink" else os.path.join(sb, "work", "outq")
+        real_out = os.path.join(sb, "real_parent", "outq") if spelling.startswith("symlink") else os.path.join(sb, "work", "outq")
         extra = []
         ext = {"c": ".h", "cpp": ".hpp", "py": ".py", "html": ".html"}[lang]
         if R.random() < 0.3:
@@ -286,6 +293,7 @@ def part_b(ctx, nruns):
         changed = sorted(k for k in before if k in after and before[k] != after[k] and before[k][0] == "f")
         rel_out = os.path.relpath(real_out, sb)
         outside = [p for p in created if not (p == rel_out or p.startswith(rel_out + os.sep)) and not (p == "work/zz")]
+        ctx.count("cli_generations[%s]" % spelling)
         if outside or changed:
             ctx.refute(None, "generation created or modified something outside the output directory", dict(witness, outside=outside[:8], modified=changed[:8]))
         files = {os.path.relpath(p, rel_out): after[p] for p in created if after[p][0] == "f" and p.startswith(rel_out + os.sep)}
